@@ -2,6 +2,7 @@
 SQLalchemy emitters
 """
 
+from copy import deepcopy
 from ast import Assign, Call, ClassDef, Expr, Load, Name, Store, keyword
 from collections import OrderedDict
 from functools import partial
@@ -74,6 +75,8 @@ def sqlalchemy_table(
     :return: AST of the Table expression + assignment
     :rtype: ```ClassDef```
     """
+    # work on a copy: the caller's interface description is input, not scratch space
+    intermediate_repr = deepcopy(intermediate_repr)
     return Assign(
         targets=[
             Name(
@@ -258,6 +261,8 @@ def sqlalchemy(
     :return: SQLalchemy declarative class AST
     :rtype: ```ClassDef```
     """
+    # work on a copy: the caller's interface description is input, not scratch space
+    intermediate_repr = deepcopy(intermediate_repr)
 
     if class_name is None and intermediate_repr["name"]:
         class_name: Optional[str] = intermediate_repr["name"]
@@ -455,6 +460,8 @@ def sqlalchemy_hybrid(
     :return: SQLalchemy hybrids declarative class AST
     :rtype: ```ClassDef```
     """
+    # work on a copy: the caller's interface description is input, not scratch space
+    intermediate_repr = deepcopy(intermediate_repr)
 
     if class_name is None and intermediate_repr["name"]:
         class_name: str = intermediate_repr["name"]
